@@ -105,11 +105,6 @@ impl EventGen for LoopElement {
                     bbox.extend(bb);
                 }
 
-                if let LoopType::Until(expr) = &loop_def.loop_type {
-                    if eval_condition(expr, context)? {
-                        break;
-                    }
-                }
                 iteration += 1;
                 loop_var_value += loop_step;
                 if iteration > context.config.loop_limit {
@@ -117,6 +112,13 @@ impl EventGen for LoopElement {
                         iteration,
                         context.config.loop_limit,
                     ));
+                }
+                // tested after the limit check: the limit applies to every completed pass,
+                // including the one after which an `until` condition becomes true
+                if let LoopType::Until(expr) = &loop_def.loop_type {
+                    if eval_condition(expr, context)? {
+                        break;
+                    }
                 }
             }
         }
